@@ -137,7 +137,7 @@ CLAIMED = {
                 "the local date-time (1950-2037) symbolic; z3 shows per path that the result is the same instant "
                 "re-expressed in the target zone (pair arithmetic on ordinal/µs-of-day) and that awareness follows the "
                 "statement's table. tz-database zones WITH transitions (6 zones; quick: local times of 2021, thorough: "
-                "1971-2037; neither in a gap nor ambiguous, as the property states): pytz's own DstTzInfo code is "
+                "1971-2036; neither in a gap nor ambiguous, as the property states): pytz's own DstTzInfo code is "
                 "re-imported through the loader and executed symbolically, the oracle is a transition table derived from "
                 "the stdlib zoneinfo.",
         "design_ref": "DESIGN.md §3 C12",
